@@ -11,6 +11,15 @@ sees a normal return or the exception, carries on with the same object, closes
 and reconstructs, and/or retries the write (tape), and keeps writing.  Oracle:
 rotated files (oldest first) + current file form a contiguous piece of the
 written stream; only a write that raised may be missing from it.
+
+Browsing family (half of the runs): the log file is "rotating, browsable" -
+LogReaders it hands out (getCurrentLog(), getLog(n)) are opened, read a few
+lines at a time and closed IN BETWEEN the writes, rotations and reopenings of
+the history, up to three alive at once, in all three passes; in a share of
+those runs the first file starts with more than one 8 kB read buffer of lines,
+so that a reader that looked at a few lines is in mid-file at the next write.
+No verdict on the readers themselves; the oracle on the written data is
+unchanged (a reader must not move, lose or duplicate what was written).
 """
 import errno
 import os
@@ -26,10 +35,13 @@ LEVEL = "fault_enumeration"
 TECHNIQUE = "deterministic simulation: crash at every interposed filesystem call (+ torn writes) and a one-shot OSError at every interposed call of seeded LogFile histories, contiguous-suffix oracle"
 QUICK_RUNS = 1800
 BATCH = 10
-COMPONENTS = {"real": ["twisted.python.logfile.LogFile/BaseLogFile (write, rotate, reopen, close, listLogs, _openFile)", "the real filesystem under a scratch directory (reads)"],
+COMPONENTS = {"real": ["twisted.python.logfile.LogFile/BaseLogFile (write, rotate, reopen, close, listLogs, _openFile, getCurrentLog, getLog)", "twisted.python.logfile.LogReader (readLines, close)",
+                       "the real filesystem under a scratch directory (reads; real descriptors, so dup()ed descriptors share offset and flags as in POSIX)"],
               "stub": ["process/kernel boundary for mutating calls (detsim.fs interposer: crash points, torn writes, errno faults)"]}
 RULE = ("run = one tape-drawn history of 2..14 operations (write bytes / write multi-byte text / rotate / reopen / close+reconstruct) with rotateLength 4..80 and "
-        "maxRotatedFiles in {None,1,2,3}; checked crash-free after every op, then every crash point and torn-write length is enumerated, each followed by reconstruction "
+        "maxRotatedFiles in {None,1,2,3}; in half of the runs (browse) the history also opens readers (getCurrentLog() / getLog(k) of a rotated file that exists, up to 3 alive), "
+        "reads 0/1/2/10 lines from one of them and closes one of them, in between the other operations, and in 30% of those (bulk) the history starts with one write of "
+        "8193..8900 bytes of numbered lines with rotateLength raised by as much, so that the first file exceeds one read buffer; checked crash-free after every op, then every crash point and torn-write length is enumerated, each followed by reconstruction "
         "and 2 more writes; then every interposed call (open/write/rename/remove/chmod) fails once with a tape-chosen errno (EIO/EACCES/ENOSPC/EBUSY/EPERM/EROFS/EMFILE/"
         "EDQUOT/EFBIG as plausible for the call) in a live process: the application observes a normal return or the exception, then (tape) carries on with the same LogFile, "
         "closes and reconstructs it, and/or retries the write, finishes the history and 2 more writes; the files are checked from the fault on after every operation that "
@@ -41,6 +53,9 @@ ASSUMPTIONS = ["process crash (not power loss); rename() atomic; log file opened
                "errno family, narrow relaxations: a write() that RAISED may be absent from the files, present, or present as a prefix (the statement does not say whether it was 'written'); "
                "every write that returned normally must be there (no retention count) and in order; after a fault the numbering of rotated files may have gaps, so 'exactly the newest N' "
                "is weakened to 'at most N, contiguous suffix' there",
+               "browsing family: the statement speaks about the written data only, so nothing a reader returns is judged and an exception from a reader operation is ignored (the unchanged "
+               "LogReader decodes with the locale codec and raises UnicodeDecodeError on non-UTF-8 byte writes; getCurrentLog() raises FileNotFoundError while a failed rotation has left no "
+               "current file); reader operations make no interposed call, so they add neither crash nor errno points; all readers are closed when the simulated process dies",
                "errno family: an operation may raise only if the fault was injected into it or an earlier operation on the same LogFile object already raised (e.g. the unchanged rotate() "
                "leaves the object with a closed file when its last rename or the re-open fails, and every later write() raises ValueError until reopen()/rotate()/reconstruction); an operation "
                "raising on an object that never failed, with no fault in it, is reported like a raise in the crash-free pass"]
@@ -50,15 +65,46 @@ LEVEL_TEXT = ("Exhaustive enumeration of crash points (incl. torn writes) and of
 TEXT_ALPHABET = ["a", "b", "é", "€", "\U0001f600", "\n", "z"]
 
 
+WRITES = ("wbytes", "wtext")
+READER_OPS = ("ropen", "rread", "rclose")
+MAX_READERS = 3
+
+
+def _filler(n):
+    """n bytes of short numbered lines (every line distinct, so a misplaced or overwritten piece cannot go unnoticed)."""
+    out = bytearray()
+    i = 0
+    while len(out) < n:
+        out += b"#%05d %s\n" % (i, b"fill" * (3 + i % 7))
+        i += 1
+    return bytes(out[:n])
+
+
 def run(sim):
     rot = sim.draw_choice([10, 4, 25, 80], "rotateLength")
     keep = sim.draw_choice([None, None, 1, 2, 3], "maxRotatedFiles")
+    # browsing family: the log file is "rotating, BROWSABLE" - readers it hands out (getCurrentLog / getLog(n)) are opened,
+    # read piecewise and closed in between the writes, rotations and reopenings, and stay alive across them.  bulk: the
+    # first file additionally starts with more than one 8 kB read buffer of lines, so that a reader which has looked at a
+    # few lines is genuinely in the middle of the file when the next write happens.
+    browse = sim.draw_bool(0.5, "browse")
+    bulk = sim.draw_choice([8300, 8193, 8900], "bulk") if browse and sim.draw_bool(0.3, "bulk?") else 0
     nops = sim.draw_int(2, 14, "nops")
     ops = []
     ctr = 0
+    nreaders = 0
+    if bulk:
+        rot += bulk
+        ops.append(("wbytes", _filler(bulk)))
     for _ in range(nops):
-        kind = sim.draw_weighted([("wbytes", 5), ("wtext", 4), ("rotate", 1), ("reopen", 1), ("reconstruct", 1)], "op")
-        if kind in ("wbytes", "wtext"):
+        menu = [("wbytes", 5), ("wtext", 4), ("rotate", 1), ("reopen", 1), ("reconstruct", 1)]
+        if browse:
+            if nreaders < MAX_READERS:
+                menu.append(("ropen", 3))
+            if nreaders:
+                menu += [("rread", 2), ("rclose", 1)]
+        kind = sim.draw_weighted(menu, "op")
+        if kind in WRITES:
             ctr += 1
             n = sim.draw_choice([2, 0, 7, 15, 40], "len")
             if kind == "wbytes":
@@ -66,16 +112,31 @@ def run(sim):
             else:
                 data = "[%d]" % ctr + "".join(TEXT_ALPHABET[i % len(TEXT_ALPHABET)] for i in sim.draw_bytes(n, bytes(range(len(TEXT_ALPHABET)))))
             ops.append((kind, data))
+        elif kind == "ropen":
+            nreaders += 1
+            # 0 = the current log; k > 0 = the k-th newest rotated file that exists at that moment (the current log if none)
+            ops.append((kind, sim.draw_choice([0, 0, 1, 2, 3], "which")))
+        elif kind == "rread":
+            ops.append((kind, (sim.draw_int(0, MAX_READERS - 1, "reader"), sim.draw_choice([1, 0, 2, 10], "lines"))))
+        elif kind == "rclose":
+            nreaders -= 1
+            ops.append((kind, sim.draw_int(0, MAX_READERS - 1, "reader")))
         else:
             ops.append((kind, None))
     extra = [("wbytes", b"{after-crash-%d}" % i + b"p" * sim.draw_int(0, 30, "pad")) for i in range(2)]
-    sim.config = {"rotateLength": rot, "maxRotatedFiles": keep, "ops": [k for k, _ in ops]}
-    sim.event("history", rot, keep, " ".join(k if d is None else "%s%d" % (k, len(d)) for k, d in ops))
+    sim.config = {"rotateLength": rot, "maxRotatedFiles": keep, "browse": browse, "bulk": bulk, "ops": [k for k, _ in ops]}
+    sim.event("history", rot, keep, " ".join("%s%d" % (k, len(d)) if k in WRITES else k if d is None else "%s%s" % (k, d) for k, d in ops))
     F = simfs.FS(sim)
+    opened = []     # every reader handed out in this run (closed for good at the end, whatever happened)
     try:
         with simfs.Installed(F, [(logfile, "os", "os"), (logfile, "open", "open")]):
-            _enumerate(sim, F, rot, keep, ops, extra)
+            _enumerate(sim, F, rot, keep, ops, extra, opened)
     finally:
+        for rd in opened:
+            try:
+                rd.close()
+            except Exception:
+                pass
         F.destroy()
 
 
@@ -139,7 +200,7 @@ def _match(segs, allb):
     return f(n, len(allb))
 
 
-def _enumerate(sim, F, rot, keep, ops, extra):
+def _enumerate(sim, F, rot, keep, ops, extra, opened):
     d = os.path.join(F.root, "logs")
 
     def wipe():
@@ -184,6 +245,7 @@ def _enumerate(sim, F, rot, keep, ops, extra):
             self.rotations = 0
             self.in_write = False
             self.lf = None
+            self.readers = []          # [LogReader, may still be short of the end of its file]
             self.construct()
 
         def construct(self):
@@ -201,6 +263,8 @@ def _enumerate(sim, F, rot, keep, ops, extra):
                         sim.check("rotated-file-at-least-rotateLength", size >= rot, self.size_wit,
                                   "size-triggered rotation of a %d-byte file with rotateLength=%d" % (size, rot))
                 self.rotations += 1
+                if self.readers:
+                    sim.probe("rotation_with_live_reader")
                 return real()
 
             lf.rotate = rotate
@@ -209,13 +273,19 @@ def _enumerate(sim, F, rot, keep, ops, extra):
         def apply(self, op):
             kind, data = op
             lf = self.lf
-            if kind in ("wbytes", "wtext"):
+            if kind in WRITES:
+                if self.readers:
+                    sim.probe("write_with_live_reader")
+                    if any(e[1] for e in self.readers):
+                        sim.probe("write_with_unfinished_reader")
                 self.in_write = True
                 try:
                     lf.write(data)
                 finally:
                     self.in_write = False
                 self.completed(_enc(data))
+            elif kind in READER_OPS:
+                self.browse(kind, data)
             elif kind == "rotate":
                 lf.rotate()
             elif kind == "reopen":
@@ -223,6 +293,51 @@ def _enumerate(sim, F, rot, keep, ops, extra):
             else:
                 lf.close()
                 self.construct()
+
+        def browse(self, kind, arg):
+            """Reader operations.  The statement says nothing about what a reader returns or whether it may raise (LogReader
+            decodes with the locale's codec, so it does raise on some of the byte writes): no verdict on the reader itself -
+            what is checked is that the WRITTEN data stays what the statement says while readers exist and are used."""
+            try:
+                if kind == "ropen":
+                    have = sorted(int(n[len("app.log."):]) for n in os.listdir(d) if n.startswith("app.log.") and n[len("app.log."):].isdigit())
+                    if arg and have:
+                        rd = self.lf.getLog(have[min(arg, len(have)) - 1])
+                        sim.probe("reader_of_rotated_file")
+                    else:
+                        big = os.path.exists(os.path.join(d, "app.log")) and os.path.getsize(os.path.join(d, "app.log")) > 8192
+                        rd = self.lf.getCurrentLog()
+                        sim.probe("reader_of_current_file")
+                        if big:
+                            sim.probe("reader_of_current_file_beyond_one_read_buffer")
+                    opened.append(rd)
+                    self.readers.append([rd, True])
+                elif not self.readers:
+                    return
+                elif kind == "rread":
+                    ent = self.readers[arg[0] % len(self.readers)]
+                    if arg[1]:
+                        ent[1] = True      # until the answer is in
+                        got = ent[0].readLines(arg[1])
+                        ent[1] = len(got) >= arg[1]
+                        sim.probe("reader_stopped_before_end" if ent[1] else "reader_read_to_end")
+                else:
+                    ent = self.readers.pop(arg % len(self.readers))
+                    sim.probe("reader_closed_midway")
+                    ent[0].close()
+            except (Violation, StepLimit):
+                raise
+            except Exception:
+                # seen on the unchanged tree: UnicodeDecodeError from readLines() (byte writes that are not UTF-8), FileNotFoundError
+                # from getCurrentLog() while a failed rotation has left no current file
+                sim.probe("reader_op_raised")
+
+        def close_readers(self):
+            while self.readers:
+                try:
+                    self.readers.pop()[0].close()
+                except Exception:
+                    pass
 
         def completed(self, data):
             self.stream += data
@@ -266,6 +381,7 @@ def _enumerate(sim, F, rot, keep, ops, extra):
     plan = list(F.log)
     total_auto = R.auto_rotations
     sim.event("points", len(plan), "auto_rotations", total_auto)
+    R.close_readers()
     R.lf.close()
     crash_in_rotate = 0
     for (n, opname, rel, size) in plan:
@@ -282,13 +398,15 @@ def _enumerate(sim, F, rot, keep, ops, extra):
             try:
                 Rc = Runner(False)
                 for i, op in enumerate(ops):
-                    pending = _enc(op[1]) if op[1] is not None else b""
+                    pending = _enc(op[1]) if op[0] in WRITES else b""
                     Rc.apply(op)
                     done = Rc.stream
                     pending = b""
                 sim.fail("crash-fired", "", "crash point %d did not fire" % n)
             except simfs.SimCrash:
                 pass
+            if Rc is not None:
+                Rc.close_readers()     # the process is gone, and its descriptors with it
             sim.fault("crash@" + opname)
             if torn:
                 sim.fault("torn_write")
@@ -372,7 +490,7 @@ def _enumerate(sim, F, rot, keep, ops, extra):
                 sim.event("raised", kind, type(e).__name__)
             self.raised += 1
             self.suspect = True
-            if data is not None:
+            if kind in WRITES:
                 self.segs.append((_enc(data), False))
             react = sim.draw_choice(REACTIONS, "reaction")
             if kind == "reconstruct":
@@ -386,7 +504,7 @@ def _enumerate(sim, F, rot, keep, ops, extra):
                 except Exception:
                     pass
                 self.construct()
-            if react.endswith("retry") and data is not None and not retried:
+            if react.endswith("retry") and kind in WRITES and not retried:
                 sim.probe("errno_app_retries_write")
                 self.attempt(op, True)
 
@@ -429,6 +547,7 @@ def _enumerate(sim, F, rot, keep, ops, extra):
         sim.fault("errno@" + cls)
         if opname in ("rename", "remove"):
             errno_in_rotate += 1
+        app.close_readers()
         with sim.guard("errno-unfaulted-op-raised", wit):
             app.lf.close()
         errno_oracle(app, "%s after the final close:" % ctx0)
@@ -443,5 +562,9 @@ MUTANTS = [
     "BaseLogFile.write: self._file.write(data) in try/except OSError: pass (write error swallowed) -> caught: contiguous-suffix:errno:w*@write, nothing-lost-without-retention:errno:wtext@write",
     "rotate(): final self._openFile() in try/except OSError: pass (rotate returns normally with a closed file) -> caught: errno-unfaulted-op-raised:errno:rotate@open(w+)",
     "LogFile.write: self.size += len(data) moved before BaseLogFile.write -> caught: rotated-file-at-least-rotateLength:auto / :errno",
+    "seeded C53-r4b-currentlog-reader-shares-offset (getCurrentLog() reads through os.dup() of the log's own descriptor, rewound: reader and writer share the file offset) -> caught: "
+    "contiguous-suffix:crash-free, nothing-lost-without-retention:crash-free, nothing-lost-without-retention:errno:wtext@open(w+) (quick, run 5)",
+    "same, but the reader also consumes its first line at once (offset ends at EOF in a small file, at 8192 in a big one) -> caught only through the bulk runs: "
+    "contiguous-suffix:crash-free, rotated-file-at-least-rotateLength:errno (quick, run 21)",
     "seeded C53-listlogs-text-sort, C53-r2-listlogs-name-sort -> still caught (post-crash-contiguous:w*@rename; now also nothing-lost-without-retention:errno:wbytes@rename)",
 ]
